@@ -16,7 +16,7 @@ gvars == <<vars, hist>>
 H(r) == hist' = Append(hist, r)
 
 Agree(x, y) == [sid |-> x.sid = y.sid, key |-> x.key = y.key, policy |-> x.policy = y.policy,
-                expiry |-> x.expiry = y.expiry]
+                expiry |-> x.expiry = y.expiry, lease |-> x.lease = y.lease]
 
 GMint ==
   /\ Mint
@@ -30,7 +30,10 @@ GImportFT ==
   /\ H([a |-> "ImportFT", present |-> fB' # NoEntry, agree |-> Agree(fA', fB'), sid |-> fA'.sid])
 GConnect(which) ==
   /\ Connect(which)
-  /\ H([a |-> "Connect", out |-> results'[Len(results')]])
+  /\ H([a |-> "Connect", out |-> results'[Len(results')],
+        \* the session after it has been used: still one session, untouched by the use
+        after |-> [claim |-> Agree(eA', eB'), ft |-> Agree(fA', fB'),
+                   untouched |-> (eA' = eA /\ eB' = eB /\ fA' = fA /\ fB' = fB)]])
 
 GenInit == Init /\ hist = << [a |-> "Init", cfg |-> cfg, rel |-> rel] >>
 GenNext == GMint \/ GImport \/ GImportFT \/ GConnect("claim") \/ GConnect("filetrans")
